@@ -11,6 +11,13 @@ if not os.path.exists(os.path.join(repo, "Makefile")):
     r = sh("./autogen.sh >/dev/null 2>&1; ./configure")
     if r.returncode:
         print(r.stdout[-3000:]); sys.exit(2)
+# the test programs have no make dependency on the rebuilt libraries (one is linked statically): force a relink
+for t in ("liberasurecode_test", "alg_sig_test", "test_xor_hd_code", "libec_slap", "rs_galois_test", "liberasurecode_rs_vand_test"):
+    for d in ("test", "test/.libs"):
+        try:
+            os.unlink(os.path.join(repo, d, t))
+        except OSError:
+            pass
 b = sh("make -j8")
 if b.returncode:
     print(b.stdout[-3000:]); print("BASELINE: build failed"); sys.exit(1)
